@@ -44,7 +44,5 @@ MANIFEST = dict(
                 "(every model of the definitions is an execution, Proofs/BmcSound.v). "
                 "Tie to /repo: verdict and counterexample length of the real patronus::mc::bmc with real solvers (four capability "
                 "profiles, both modes, raw/simplified) vs the extracted bmc_spec on every run."),
-    level_note=("Trusted: Coq kernel; SMT solvers assumed correct (two must agree with the reference); oracle runs only on systems with "
-                "<= 2^15 valuations per step. Encoding defects of C04 surface here as Err instead of Fail/Success, cvc5's refusal of "
-                "(as const ..) of a non-value as Err or a hang (known findings)."),
+    level_note='Trusted: Coq kernel; SMT solvers assumed correct (Section hypothesis in the algorithm-layer theorems; two real solvers must agree with the explicit-state reference in the tie); oracle runs only on systems with <= 2^15 valuations per step. Repaired in /repo through this check: the three C04 encoding defects, bmc(k_max = 0) panic. Open findings: cyclic init dependencies (solver rejects the script), cvc5 refuses (as const ..) of a non-value.',
 )
